@@ -197,7 +197,7 @@ def confirm(run, cfg, cex, sym):
   return ok
 
 
-def replay_subprocess(pid, data):
+def replay_subprocess(pid, data, extra_env=None):
   import tempfile
   from ..common import VERIF
   d = os.path.join(VERIF, 'replays', pid)
@@ -206,6 +206,7 @@ def replay_subprocess(pid, data):
   with open(p, 'w') as f:
     json.dump(data, f)
   env = dict(os.environ, JAX_ENABLE_X64='1')
+  env.update(extra_env or {})
   r = subprocess.run([sys.executable, '-m', 'vf.main', pid, '--replay', p], env=env, capture_output=True, text=True,
                      cwd=VERIF, timeout=600)
   os.remove(p)
